@@ -159,6 +159,12 @@ impl Link {
     pub fn over_budget(&self) -> bool {
         self.0.lock().unwrap().over_budget
     }
+    /// silent stall that begins after `k` more frames have been written (frame-indexed cut point)
+    pub fn silence_after_frames(&self, k: usize) {
+        let mut l = self.0.lock().unwrap();
+        let n = l.log.len();
+        l.drop_after = Some(n + k);
+    }
     pub fn silence_after_now(&self) {
         let mut l = self.0.lock().unwrap();
         let n = l.log.len();
